@@ -63,7 +63,7 @@ func Uniform256() *rapid.Generator[*big.Int] {
 // DESIGN.md section 3.3; simplest classes first so that shrinking moves towards small values.
 func Int(m *big.Int) *rapid.Generator[*big.Int] {
 	return rapid.Custom(func(t *rapid.T) *big.Int {
-		kind := rapid.IntRange(0, 11).Draw(t, "intKind")
+		kind := rapid.IntRange(0, 13).Draw(t, "intKind")
 		var v *big.Int
 		switch kind {
 		case 0: // tiny
@@ -112,6 +112,25 @@ func Int(m *big.Int) *rapid.Generator[*big.Int] {
 		case 10: // short: random bit length
 			v = Uniform256().Draw(t, "r")
 			v.Rsh(v, uint(rapid.IntRange(0, 255).Draw(t, "sh")))
+		case 11: // word-sized: exactly 8, 16, 32, 64, 128 or 192 bits wide (top bit of the word set)
+			bits := rapid.SampledFrom([]int{64, 32, 128, 192, 16, 8, 63, 65}).Draw(t, "wbits")
+			v = Uniform256().Draw(t, "r")
+			v.Rsh(v, uint(256-bits))
+			v.SetBit(v, bits-1, 1)
+			if rapid.Bool().Draw(t, "allones") {
+				v = new(big.Int).Sub(new(big.Int).Lsh(one, uint(bits)), big.NewInt(int64(rapid.IntRange(1, 2).Draw(t, "d"))))
+			}
+		case 12: // limbs with a zero limb below a non-zero one, or equal limbs
+			var l [4]uint64
+			for i := range l {
+				l[i] = rapid.Uint64().Draw(t, "l")
+			}
+			z := rapid.IntRange(0, 2).Draw(t, "zl")
+			l[z] = 0
+			if rapid.Bool().Draw(t, "two") {
+				l[(z+1)%3] = 0
+			}
+			v = FromLimbs(l)
 		default:
 			v = Uniform256().Draw(t, "r")
 		}
@@ -221,4 +240,31 @@ func Pick(t *rapid.T, label string, n int) int {
 	v := rapid.Uint64().Draw(t, label)
 	mixed := (v * 0x9E3779B97F4A7C15) >> 20
 	return int(mixed % uint64(n))
+}
+
+// PerturbWords returns base (a 256-bit value) with each wordBits-wide word independently kept, incremented,
+// decremented, zeroed, saturated or randomised. It reaches inputs that agree with a comparison constant in some
+// words and differ in several others - what word-by-word (lexicographic) comparisons get wrong.
+func PerturbWords(t *rapid.T, base *big.Int, wordBits uint) *big.Int {
+	n := 256 / int(wordBits)
+	mask := new(big.Int).Sub(new(big.Int).Lsh(one, wordBits), one)
+	out := new(big.Int)
+	for i := n - 1; i >= 0; i-- {
+		w := new(big.Int).And(new(big.Int).Rsh(base, uint(i)*wordBits), mask)
+		switch rapid.IntRange(0, 7).Draw(t, "wordHow") {
+		case 0, 1, 2: // keep
+		case 3:
+			w.Add(w, one).And(w, mask)
+		case 4:
+			w.Sub(w, one).And(w, mask)
+		case 5:
+			w.SetInt64(0)
+		case 6:
+			w.Set(mask)
+		default:
+			w = new(big.Int).And(new(big.Int).SetUint64(rapid.Uint64().Draw(t, "word")), mask)
+		}
+		out.Lsh(out, wordBits).Or(out, w)
+	}
+	return out
 }
